@@ -91,6 +91,10 @@ func badBytes(class string, variant int, own json.RawMessage) (payload string, r
 		return "{\"jsonrpc\":\"2.0\",\"method\":\"notifications/message\",\"params\":{\"data\":\"bad \xff\xfe utf8 \xc3\x28\"}}", false
 	case "control-repeat":
 		return "event: endpoint\ndata: /message?sessionId=again", true
+	case "noevent":
+		// SSE frames that carry data but no event type (and multi-line data): nothing to dispatch on the legacy stream
+		return []string{`data: {"jsonrpc":"2.0","method":"notifications/verif-unknown","params":{"x":2}}`,
+			"data: first line\ndata: second line", "data:", `data: {"partial":` + "\ndata: true}"}[variant%4], true
 	case "fieldtype":
 		// an answer to this very call whose fields have the wrong JSON types
 		results := []string{
